@@ -116,6 +116,46 @@ def full_text(t, crc):
         shutil.rmtree(d, ignore_errors=True)
 
 
+class RoGuard:
+    """snapshot of a read-only cache directory (names, kind, size, bytes, mtime) taken when the harness is done
+    preparing it; `diff()` afterwards describes removed / added / changed entries, or None"""
+
+    def __init__(self, d):
+        self.d = d
+        self.before = self._snap()
+
+    def _snap(self):
+        out = {}
+        if os.path.isdir(self.d):
+            for fn in sorted(os.listdir(self.d)):
+                p = os.path.join(self.d, fn)
+                st = os.lstat(p)
+                if os.path.isdir(p):
+                    out[fn] = ('dir', None, st.st_mtime_ns)
+                else:
+                    try:
+                        with open(p, 'rb') as f:
+                            data = f.read()
+                    except OSError:
+                        data = None
+                    out[fn] = ('file', data, st.st_mtime_ns)
+        return out
+
+    def diff(self):
+        after = self._snap()
+        removed = sorted(set(self.before) - set(after))
+        added = sorted(set(after) - set(self.before))
+        changed = sorted(k for k in set(after) & set(self.before) if after[k] != self.before[k])
+        if removed or added or changed:
+            return 'read-only directory modified: removed %r, added %r, changed %r' % (removed, added, changed)
+        return None
+
+
+def ro_failure(case, detail):
+    return {'class': 'read_only_cache_dir_modified', 'case': case, 'detail': detail, 'observed': detail,
+            'expected': 'the read-only cache directory is never written: same names, bytes and modification times'}
+
+
 def snapshot(d):
     out = {}
     if os.path.isdir(d):
@@ -331,6 +371,9 @@ def truncation_sweep(t, crc, fails, cls_hint='every_prefix'):
             fails.append({'class': 'loaded_differs_from_stored', 'case': {'kind': 'roundtrip', 'table': tjson(t), 'crc': crc},
                           'expected': 'stored table', 'observed': repr(got)[:300]})
         for k in range(len(txt) - 1, -1, -1):          # shrink in place: every proper prefix, longest first
+            if not os.path.exists(p):                   # a fetch may have removed the unusable rw file: put it back
+                with open(p, 'wb') as f:
+                    f.write(txt)
             os.truncate(p, k)
             r = cache.fetch(crc)
             n += 1
@@ -753,6 +796,7 @@ def missing_field_case(case):
         os.makedirs(rw)
         with open(os.path.join(ro if case['where'] == 'ro' else rw, '%08X.json' % crc), 'wb') as f:
             f.write(text_without(t, crc, case['key'], case['which']))
+        guard = RoGuard(ro)
         for sess in range(2):
             h, fins, exc, nreq = fetch_through_cache(cls, items, crc, TocCache(ro_cache=ro, rw_cache=rw), case['ver'])
             bad = ('callback raised %r' % (exc[0][1:],)) if exc else ('finished %d times' % fins) if fins != 1 else c03.check_table(cls, items, h)
@@ -761,7 +805,8 @@ def missing_field_case(case):
                         'detail': 'session %d, file without %r in %s element object(s), %d request(s): %s' % (
                             sess, case['key'], case['which'], nreq, bad),
                         'expected': 'miss, then exactly the device table (extended marker included)'}
-        return None
+        d = guard.diff()
+        return ro_failure(case, d) if d else None
     finally:
         shutil.rmtree(root, ignore_errors=True)
 
@@ -849,6 +894,7 @@ def hit_lookup_case(case):
         bad = ('raised %r' % (exc[0][1:],)) if exc else ('finished %d times' % fins) if fins != 1 else pb or c03.check_table(cls, items, h)
         if bad:
             return fail('download_session_wrong', bad)
+        guard = RoGuard(root) if case.get('ro') else None
         for sess in range(case.get('sessions', 1)):
             if case['reuse']:
                 holder.clear()
@@ -870,7 +916,8 @@ def hit_lookup_case(case):
             pb = c03.probe_lookups(h, hints=tuple(range(min(len(items), 6))))
             if pb:
                 return fail('cached_table_invisible_to_lookups', pb + ' (after the hit)')
-        return None
+        d = guard.diff() if guard else None
+        return ro_failure(case, d) if d else None
     finally:
         shutil.rmtree(root, ignore_errors=True)
 
@@ -1091,6 +1138,7 @@ def run_collision_sessions(case):
             for c, text in pre.items():
                 with open(os.path.join(d, '%08X.json' % int(c)), 'w') as f:
                     f.write(text)
+        guard = RoGuard(ro)
         for sn, sess in enumerate(case['sessions']):
             li = [c03.ditem_unjson(x) for x in sess['log']]
             pi = [c03.ditem_unjson(x) for x in sess['param']]
@@ -1144,13 +1192,15 @@ def run_collision_sessions(case):
             bad = c03.check_table('param', pi, par.toc)
             if bad:
                 return 'session %d: parameter table (%d requests; from the cache if 1): %s' % (sn, nreq_p, bad)
-        return None
+        return guard.diff()
     finally:
         shutil.rmtree(root, ignore_errors=True)
 
 
 def collision_empty_case(case):
     bad = run_collision_sessions(case)
+    if bad and bad.startswith('read-only directory modified'):
+        return ro_failure(case, bad)
     if bad:
         return {'class': 'empty_or_foreign_cached_table_taken_for_the_other_table', 'case': case, 'observed': bad, 'detail': bad,
                 'expected': 'a table taken from the cache equals the device table of that class; otherwise it is downloaded'}
@@ -1231,6 +1281,7 @@ def vanished_case(case):
             open(p, 'w').close()
         elif case['how'] == 'unreadable':
             os.chmod(p, 0)
+        guard = RoGuard(root) if case.get('as_ro') and case['known'] == 'at_construction' else None
         try:
             r = cache.fetch(crc)
         except Exception as e:  # noqa
@@ -1245,7 +1296,8 @@ def vanished_case(case):
         bad = c03.check_table(cls, items, h)
         if bad:
             return fail('second session: %s' % bad)
-        return None
+        d = guard.diff() if guard else None
+        return ro_failure(case, d) if d else None
     finally:
         try:
             os.chmod(os.path.join(root, '%08X.json' % crc), 0o644)
@@ -1265,6 +1317,97 @@ def gen_vanished_cases(rng, count):
             it['ext'] = False
         out.append({'kind': 'vanished', 'cls': cls, 'ver': ver, 'items': [c03.ditem_json(i) for i in items], 'crc': rng.getrandbits(32),
                     'known': 'at_construction' if k % 2 else 'own_insert', 'as_ro': k % 4 == 3, 'how': hows[(k // 2) % 4]})
+    return out
+
+
+def ro_unusable_case(case):
+    """a file for exactly the announced checksum lies in the READ-ONLY directory and cannot be used (cut short at some
+    offset, damaged, missing a field, empty); nothing for that checksum in the rw directory.  The table must be the
+    device's (miss + download, stored in the rw directory if there is one) and the read-only directory must be exactly
+    as it was: same names, bytes and modification times, after one and after two sessions."""
+    from cflib.crazyflie.toccache import TocCache
+    items = [c03.ditem_unjson(d) for d in case['items']]
+    cls, crc = case['cls'], case['crc']
+    t = c03.toc_lists([c03.spec_elem(cls, i, it) for i, it in enumerate(items)])
+    root = mkdtemp()
+    try:
+        ro, rw = os.path.join(root, 'ro'), os.path.join(root, 'rw')
+        os.makedirs(ro)
+        os.makedirs(rw)
+        txt = full_text(t, crc)
+        how = case['how']
+        if how[0] == 'cut':
+            data = txt[:max(0, min(len(txt) - 1, int(how[1] * len(txt))))]
+        elif how[0] == 'garbage':
+            data = bytes(how[1])
+        else:
+            data = text_without(t, crc, how[1], 'all')
+        with open(os.path.join(ro, '%08X.json' % crc), 'wb') as f:
+            f.write(data)
+        with open(os.path.join(ro, 'README.txt'), 'w') as f:                 # a bystander
+            f.write('dist cache')
+        guard = RoGuard(ro)
+        for sess in range(case['sessions']):
+            cache = TocCache(ro_cache=ro, rw_cache=rw if case['use_rw'] else None)
+            h, fins, exc, nreq = fetch_through_cache(cls, items, crc, cache, case['ver'])
+            bad = ('callback raised %r' % (exc[0][1:],)) if exc else ('finished %d times' % fins) if fins != 1 else c03.check_table(cls, items, h)
+            if bad:
+                return {'class': 'unusable_ro_file_breaks_fetch', 'case': case, 'detail': 'session %d: %s' % (sess, bad), 'observed': bad}
+            d = guard.diff()
+            if d:
+                return ro_failure(case, 'after session %d (%s file in the read-only directory): %s' % (sess, how[0], d))
+        return None
+    finally:
+        shutil.rmtree(root, ignore_errors=True)
+
+
+def ro_sweep_case(case):
+    """crash-prefix sweep with the file in the READ-ONLY directory: for EVERY byte offset the file of the announced
+    checksum is cut there; each fetch must miss and leave the file exactly as it is (it is still there, same bytes)"""
+    from cflib.crazyflie.toccache import TocCache
+    t = tunjson(case['table'])
+    crc = case['crc']
+    root = mkdtemp()
+    try:
+        ro, rw = os.path.join(root, 'ro'), os.path.join(root, 'rw')
+        os.makedirs(ro)
+        os.makedirs(rw)
+        txt = full_text(t, crc)
+        p = os.path.join(ro, '%08X.json' % crc)
+        for k in range(len(txt) - 1, -1, -1):
+            with open(p, 'wb') as f:
+                f.write(txt[:k])
+            cache = TocCache(ro_cache=ro, rw_cache=rw)
+            r = cache.fetch(crc)
+            if r is not None:
+                return {'class': 'truncated_file_not_a_miss', 'case': dict(case, k=k), 'detail': 'ro file cut at byte %d is not a miss' % k}
+            ok = os.path.isfile(p)
+            if ok:
+                with open(p, 'rb') as f:
+                    ok = f.read() == txt[:k]
+            if not ok or sorted(os.listdir(ro)) != ['%08X.json' % crc]:
+                return ro_failure(dict(case, k=k), 'file of the read-only directory cut at byte %d of %d: after fetch the directory holds %r' % (
+                    k, len(txt), sorted(os.listdir(ro))))
+        return None
+    finally:
+        shutil.rmtree(root, ignore_errors=True)
+
+
+def gen_ro_unusable_cases(rng, count):
+    out = []
+    hows = [('cut', 0.0), ('cut', 0.5), ('cut', 0.999), ('cut', rng.random()), ('garbage', list(b'{')), ('garbage', list(b'not json')),
+            ('garbage', list(b'[1, 2]')), ('garbage', list(b'\xff\xfe')), ('missing', 'extended'), ('missing', 'ident'), ('missing', '__class__')]
+    for k in range(count):
+        cls = 'param' if k % 2 else 'log'
+        ver = rng.choice([3, 7])
+        items = c03.gen_items(rng, cls, rng.choice([1, 2, 4]), ver >= 4)
+        if cls == 'param':
+            items[0]['ext'] = True
+        how = hows[k % len(hows)]
+        if how == ('cut', None):
+            how = ('cut', rng.random())
+        out.append({'kind': 'ro_unusable', 'cls': cls, 'ver': ver, 'items': [c03.ditem_json(i) for i in items], 'crc': rng.getrandbits(32),
+                    'how': list(how), 'sessions': 1 + (k // len(hows)) % 2, 'use_rw': k % 5 != 4})
     return out
 
 
@@ -1291,6 +1434,7 @@ def crc_suffix_case(case):
         for i, c in enumerate(case['stored']):
             tabs[c] = tunjson(case['tables'][i])
             TocCache(rw_cache=ro if case['where'][i] == 'ro' else rw).insert(c, c03.mk_toc_obj(tabs[c]))
+        guard = RoGuard(ro)
         for reopen in (False, True):
             cache = TocCache(ro_cache=ro, rw_cache=rw)
             if not reopen and case.get('same_object'):
@@ -1311,7 +1455,8 @@ def crc_suffix_case(case):
                 elif got is not None:
                     return {'class': 'hit_on_different_crc', 'case': case, 'expected': None, 'observed': repr(got)[:200],
                             'detail': 'fetch(0x%08X) hits although only %s were stored' % (a, ['0x%08X' % c for c in case['stored']])}
-        return None
+        d = guard.diff()
+        return ro_failure(case, d) if d else None
     finally:
         shutil.rmtree(root, ignore_errors=True)
 
@@ -1353,6 +1498,12 @@ def _run_case(case, rng):
     fails = []
     if case.get('kind') == 'collision':
         f = oracle_collision(case)
+        return [f] if f else []
+    if case.get('kind') == 'ro_sweep':
+        f = ro_sweep_case(case)
+        return [f] if f else []
+    if case.get('kind') == 'ro_unusable':
+        f = ro_unusable_case(case)
         return [f] if f else []
     if case.get('kind') == 'missing_field':
         f = missing_field_case(case)
@@ -1418,6 +1569,17 @@ def oracle(ctx, deep=False):
         f = collision_empty_case(case)
         if f:
             fails.append(f)
+    for _ in range(ctx.scale(3, 20)):
+        case = {'kind': 'ro_sweep', 'table': tjson(gen_table(rng, n=rng.choice([1, 2]))), 'crc': rng.getrandbits(32)}
+        n += 1
+        f = ro_sweep_case(case)
+        if f:
+            fails.append(f)
+    for case in gen_ro_unusable_cases(rng, ctx.scale(44, 300)):
+        n += 1
+        f = ro_unusable_case(case)
+        if f:
+            fails.append(f)
     for case in gen_missing_field_cases(rng, ctx.scale(48, 300)):
         n += 1
         f = missing_field_case(case)
@@ -1455,7 +1617,7 @@ def oracle(ctx, deep=False):
             cache.insert(crc, c03.mk_toc_obj(t2))
             cache.insert(rng.getrandbits(32), c03.mk_toc_obj(t2))
             if snapshot(ro) != before:
-                fails.append({'class': 'read_only_directory_written', 'case': {'kind': 'ro', 'crc': crc}, 'observed': sorted(os.listdir(ro))})
+                fails.append({'class': 'read_only_cache_dir_modified', 'case': {'kind': 'ro', 'crc': crc}, 'observed': sorted(os.listdir(ro))})
             if not use_rw and (os.path.exists(rw) or len(os.listdir(root)) != 1):
                 fails.append({'class': 'written_without_rw_directory', 'case': {'kind': 'ro', 'crc': crc}, 'observed': sorted(os.listdir(root))})
             if use_rw:
